@@ -348,6 +348,7 @@ def render_class(style, inv, child, dbc, contracts):
                "    def swap(this, self):\n        return ('swap', self)\n"
                "    def util(x):\n        return ('util', x)\n"
                "    def util0():\n        return 'util0'\n"
+               "    async def autil(x):\n        await Tick()\n        return ('autil', x)\n"
                # a method which carries an attribute set by a foreign decorator and (in the contracted twin) a contract of its own
                + ("    @icontract.require(lambda self: True)\n" if contracts else "") + "    @tagged\n    def tg(self):\n        return 'tg'\n"
                "    def pub(self, x):\n        return ('pub', x)\n    @property\n    def p(self):\n        \"\"\"doc of p\"\"\"\n        return 7\n"
@@ -524,6 +525,7 @@ def class_script(ns, style, child):
             rec("made", lambda: r.made)
     rec("tag", lambda: (inspect.getattr_static(Root, "tg").tag, Root.tg.__name__))
     rec("util_through_class", lambda: Root.util(3))   # a plain function kept in the class body and used through the class
+    rec("autil_through_class", lambda: ns["RUN"](Root.autil(3)))   # ... a coroutine function used that way
     rec("util0_through_class", lambda: Root.util0())   # ... without any argument: there is no instance in the call at all
     rec("method_without_instance", lambda: Root.pub())   # Python's own TypeError
     rec("doc_p", lambda: Root.p.__doc__)
